@@ -11,7 +11,7 @@
   theorem proved is the `_partial` one with the explicit exclusion, and a kernel-checked
   counterexample shows the full statement false of the model (= known findings).
 -/
-import TypedpyModel.Lemmas.World
+import TypedpyModel.Lemmas.DefineWorld
 namespace Typedpy.C14
 open Typedpy
 
